@@ -12,14 +12,69 @@ CLAIMED = {
          'Trusted: Coq kernel + vm_compute; hand-written model coq/C17/Model.v; correspondence harness props/C17.py; float rounding not '
          'modelled (1e-9 relative comparison, dyadic inputs so branch decisions are exact); no axioms (closed under the global context).',
          'DESIGN.md section 3 C17'),
- 'C01': ('Coq proof of per-chemical conservation for mixing (single-phase receivers, any inlets/packages/phases, receiver among inlets), splitting, scaling, CAS remapping, SparseVector.mix_from + correspondence over real streams and 5 property packages',
-         'PARTIAL: mix_value is proved by induction over inlet lists for single-phase receivers (any number/kind/phase/package of inlets), '
-         'split_value, scale_value, remap and the sparse receiver-among-inlets accounting are proved; the multi-phase-receiver half of mix_value, '
-         'totality (mix_total), separate_restores and copy_remove are stated (Definition ..._statement), modelled and tied to the code by '
-         'correspondence, but not yet theorems.',
-         'Trusted: Coq kernel + vm_compute; hand-written model coq/C01/Model.v (of the repaired code); harness props/C01.py (index caches are '
+ 'C01': ('Coq proof of per-chemical conservation for mixing (any receivers/inlets/packages/phases, receiver among inlets, copy_like and fallback paths), totality, splitting, separating, copy-with-removal, scaling + correspondence over real streams and 5 property packages',
+         '24 theorems by induction over inlet lists / phase rows: mix_value (full), mix_total, mix_frame, split_value/product/nonneg, '
+         'separate_value/restores, copy_remove (IDs=all), scale, remap, SparseVector.mix_from accounting. Not covered by a theorem: copy_flow with '
+         'partial IDs/exclude and MultiStream.copy_flow (correspondence/oracle only).',
+         'Trusted: Coq kernel + vm_compute; hand-written model coq/C01/*.v (of the repaired code); harness props/C01.py (index caches are '
          'cleared before every operation, see ASSUMPTIONS); no axioms.',
          'DESIGN.md section 3 C01, section 8'),
+ 'C08': ('Coq proof over a hand-written Q model of bubble/dew point wrappers with the root finders as oracles, residual kernels and z pre-processing GENERATED from source and proved equal to the model by reflexivity + stubbed-solver correspondence',
+         'normalised output, solve_* return roots of the residual of the NORMALISED composition (scale invariance), permutation invariance, ideal closed forms, '
+         'P_dew <= P_bubble (weighted AM-HM) and T_bubble <= T_dew for ideal packages with increasing Psat, T<->P inverse, single component, instance cache. '
+         'PARTIAL: ordering with composition-dependent activity coefficients is not a theorem (azeotropes); root finding is a flexsolve contract.',
+         'Trusted: Coq kernel + vm_compute; translator tr/C08_kernels.py; model coq/C08/Model.v; harness props/C08.py; contracts secant_ok/iq_ok/weg_fix; no axioms.',
+         'DESIGN.md section 3 C08, section 8'),
+ 'C14': ('Coq proof over an object-graph model of the property memo (key cells, memo dicts, proxies, links, phase views): every read equals the package value at the current state for ALL histories + correspondence with an injective stub property package',
+         'read_fresh via a memo-coherence invariant by induction over histories of all public mutators, proxies, links, views and reads; '
+         'read_equals_fresh_stream proved for single-phase objects (multi-phase follows from read_fresh + spec_depends_only_on_state); the unrepaired proxy code is refuted in Coq.',
+         'Trusted: Coq kernel + vm_compute; hand-written model coq/C14/Model.v; harness props/C14.py; contract: package functions respect numeric equality; no axioms.',
+         'DESIGN.md section 3 C14, section 8'),
+ 'C10': ('Coq proof of cache coherence (lookup = pure classification for every lookup history), get/set refinement of dense positional access, name resolution + correspondence with histories that fill and evict both bounded caches',
+         'lookup_pure by a cache-coherence invariant over unbounded histories (100-entry FIFO shared with index_overlap, 500/100 class-level cache), '
+         'lookup_total, get_refines (chem and material, all key forms), set_get family with frames, group_scalar, names_single.',
+         'Trusted: Coq kernel + vm_compute; hand-written model coq/C10/Model.v; harness props/C10.py; wf_chems hypothesis (distinct IDs/CAS); no axioms.',
+         'DESIGN.md section 3 C10, section 8'),
+ 'C12': ('Coq proof over a representation state machine (Stream<->MultiStream, phase sets, cached phase views, save/restore) for all histories + correspondence on real streams (exhaustive depth 4 in thorough)',
+         'totals/T/P preserved by every conversion along every history, placement rule, views_live (cached sub-streams alias the current rows and '
+         'share T,P), write-through both ways, data_roundtrip, totality of covered targets. One clause refuted on the faithful model (Stream.vle/.lle/.sle '
+         'relabel material; deliberate in the source) -> 5 known findings with Coq witness; proved _partial where the label is not rewritten.',
+         'Trusted: Coq kernel + vm_compute; hand-written model coq/C12/Model.v; harness props/C12.py; no axioms.',
+         'DESIGN.md section 3 C12, section 8'),
+ 'C13': ('Coq proof over a heap (object-graph) model: copy equal/disjoint for all mutation histories, proxy/flow_proxy/link_with share exactly the advertised cells, unlink, reduce round trip + correspondence with id()-level aliasing and real pickle',
+         'copy_equal, copy_disjoint (every interleaved history), mutators_local, proxy_all, flow_proxy_flows_only, link_exact (all 8 flag subsets), '
+         'unlink_sep (PARTIAL: refuted for unlink after proxy -> known finding with witness), copy_like_eq (PARTIAL: proved Stream<-Stream, other '
+         'kind combinations by correspondence), reduce_roundtrip (PARTIAL: plain fields proved; flows/phases/T/P by correspondence and real pickle).',
+         'Trusted: Coq kernel + vm_compute; hand-written model coq/C13/Model.v; harness props/C13.py; pickle itself is run, not modelled; no axioms.',
+         'DESIGN.md section 3 C13, section 8'),
+ 'C11': ('Coq proof over a heap model of molar/mass/volumetric views, their caches and memos, unit factors as oracle: alias invariant and value laws after every history + correspondence with an injective stub molar volume and real unit factors',
+         'alias_inv and the full invariant for all histories of view reads/writes and structural ops (T/P/phase(s) setters, link/unlink, copy_like, '
+         'package reset), mass_get/set, vol_get (at the current phase and T,P up to the deliberate 1e-12 memo tolerance), totals (mol, mass, vol), '
+         'units (factor, other unit, wrong dimension, set-then-get), set_total_keeps_composition.',
+         'Trusted: Coq kernel + vm_compute; hand-written model coq/C11/Model.v; harness props/C11.py; molar volume and pint factors are oracles; no axioms.',
+         'DESIGN.md section 3 C11, section 8'),
+ 'C02': ('Coq proof of the energy bookkeeping of mix_from/separate_out and the H/h/S/Hnet setters, oracle-parametric in the property package and T-solver; Newton kernels of mixture.py + correspondence on an exact stub package',
+         'mix_energy (H_out = sum H_in before + Q, receiver among inlets, fallback path), mix_pressure, frames, sep_energy, setter round trips and '
+         'idempotence from the solver contracts, iter_T fixed point / affine exactness. Solver convergence is an oracle contract (solve_spec).',
+         'Trusted: Coq kernel + vm_compute; hand-written model coq/C02/Model.v; harness props/C02.py; contracts solve_spec/solve_fix; flexsolve internals not modelled; no axioms.',
+         'DESIGN.md section 3 C02, section 8'),
+ 'C07': ('Model GENERATED from free_energy.py / _chemical.py / ideal_mixture_model.py on every run (fail-closed ast translators) + Coquelicot proofs over R for arbitrary Cn, Tm, Tb, T, P + correspondence of the generated terms at Q against real Chemical objects',
+         'reference values, dH/dT = Cn, dS/dT = Cn/T, pressure term, phase jumps, phase-locked chemicals, mixture linearity for all nine (ref, phase) '
+         'pairs. mix_entropy and mixing_never_lowers_S are refuted on the generated model (IdealEntropyModel mixing term; pinned by a doctest) -> known '
+         'finding with witness; the ideal formula is proved to satisfy the property.',
+         'Trusted: Coq kernel + vm_compute; translators tr/C07_*.py; hand-written glue coq/C07/Model.v; stdlib axioms sig_not_dec, sig_forall_dec, '
+         'functional_extensionality_dep, Classical_Prop.classic (reals, ln); excess/EOS terms not modelled.',
+         'DESIGN.md section 3 C07, section 8'),
+ 'C16': ('Kernels GENERATED from activity_coefficients.py on every run (fail-closed translator) + proofs (any carrier: x untouched, no-group = 1, f = call; over R: literature form, pure limit, permutation equivariance, binary Gibbs-Duhem for the combinatorial part) + exact stand-in correspondence',
+         'PARTIAL: Gibbs-Duhem for the residual part and for n > 2 is measured by the oracle, not proved; pure_limit for the whole coefficient under the '
+         'reference_is_pure_mixture hypothesis.',
+         'Trusted: Coq kernel + vm_compute; translator tr/C16_kernels.py; hand-written wrappers coq/C16/{Ops,Wrapper,Model}.v; stdlib real axioms + classic for the R theorems.',
+         'DESIGN.md section 3 C16, section 8'),
+ 'C20': ('Coq proof of the separation helpers as algebra over flow vectors with the phase-fraction/equilibrium/linear solvers as oracles + correspondence on real streams with stubbed and real solvers',
+         '33 theorems: mix_and_split, clip range, moisture adjustment (conserves in every outcome, target reached), partition (conserves always, '
+         'K reproduced with explicit common factor, non-negativity, forced chemicals), lle/vle wrappers with efficiency, phase_split, chemical_splits, material_balance.',
+         'Trusted: Coq kernel + vm_compute; hand-written model coq/C20/Model.v; harness props/C20.py; oracle contracts (A x = b; rowL + rowl = feed); no axioms.',
+         'DESIGN.md section 3 C20, section 8'),
  'C19': ('Coq proof of Network.sort (permutation, topological order, quiet) + verified certificate checker evaluated in Coq on every observed Network.from_units result; correspondence for sort/PathSource',
          'Part 1: Network.sort is modelled loop for loop and proved for every path and every strict partial order reach (perm, topo, no '
          'warning, input-order independence). Part 2: a Gallina checker for complete from_units results with soundness theorems against the '
